@@ -32,6 +32,10 @@ type Op struct {
 	MaxC  int      `json:"maxc,omitempty"`
 	MaxP  int      `json:"maxp,omitempty"`
 	K     int      `json:"k,omitempty"`
+	FL    int      `json:"fl,omitempty"`
+	FFrom int      `json:"forkfrom,omitempty"`
+	Chunk []int    `json:"chunk,omitempty"`
+	From  int      `json:"from,omitempty"`
 	P     string   `json:"p,omitempty"`
 	V     string   `json:"v,omitempty"`
 	Items []int    `json:"items"`
@@ -42,6 +46,9 @@ const honestPeer = "hp"
 type world struct {
 	origin  uint64
 	n, w    int
+	fl, ff  int         // competing fork: fl headers (ids n+1..n+fl) with numbers ff..
+	last    common.Hash // hash of the header handed out most recently (the origin's before the first)
+	orig    common.Hash
 	maxc    int
 	maxp    int   // maxResultsProcess for this queue (0 = the package default)
 	body    []int // body id of header k (index k-1)
@@ -71,6 +78,7 @@ var (
 	txCache    = map[int][]*types.Transaction{}
 	chainCache = map[string][]*types.Header{}
 	hashCache  = map[string][]common.Hash{}
+	origCache  = map[string]common.Hash{}
 )
 
 func mkTxs(b int) []*types.Transaction {
@@ -84,46 +92,54 @@ func mkTxs(b int) []*types.Transaction {
 }
 
 func newWorld(op *Op, seed int64) *world {
-	w := &world{origin: uint64(7 + seed%5), n: op.N, w: op.W, maxc: op.MaxC, maxp: op.MaxP, body: op.Body, peers: append([]string{}, op.Peers...),
+	w := &world{origin: uint64(7 + seed%5), n: op.N, fl: op.FL, ff: op.FFrom, w: op.W, maxc: op.MaxC, maxp: op.MaxP, body: op.Body, peers: append([]string{}, op.Peers...),
 		hashes: map[common.Hash]int{}}
 	sort.Strings(w.peers)
 	if w.maxc == 0 {
 		w.maxc = 2
 	}
-	key := fmt.Sprint(w.origin, w.body)
+	key := fmt.Sprint(w.origin, w.n, w.fl, w.ff, w.body)
 	if hs, ok := chainCache[key]; ok {
-		w.headers = hs
-		w.hlist = hashCache[key]
-		for k, h := range w.hlist {
-			w.hashes[h] = k + 1
+		w.headers, w.hlist, w.orig = hs, hashCache[key], origCache[key]
+	} else {
+		w.orig = (&types.Header{Number: new(big.Int).SetUint64(w.origin), Extra: []byte("verif-origin")}).Hash()
+		mk := func(id, num int, parent common.Hash, extra string) *types.Header {
+			h := &types.Header{ParentHash: parent, Number: new(big.Int).SetUint64(w.origin + uint64(num)), GasLimit: 8000000,
+				Subsidy: big.NewInt(0), GasRewards: big.NewInt(0), Time: uint64(1000 + num), Extra: []byte(fmt.Sprintf("%s-%d", extra, id))}
+			if w.body[id-1] == 0 {
+				h.TxHash = types.EmptyRootHash
+			} else {
+				h.TxHash = types.DeriveSha(types.Transactions(txs(w.body[id-1])))
+			}
+			h.ReceiptHash = types.EmptyRootHash
+			return h
 		}
-		w.q = downloader.NewVerifQueue(w.origin, w.w, w.maxp)
-		return w
+		parent := w.orig
+		for k := 1; k <= w.n; k++ {
+			h := mk(k, k, parent, "verif-main")
+			w.headers = append(w.headers, h)
+			parent = h.Hash()
+			w.hlist = append(w.hlist, parent)
+		}
+		for i := 1; i <= w.fl; i++ {
+			num := w.ff + i - 1
+			if i == 1 {
+				parent = w.orig
+				if w.ff > 1 {
+					parent = w.hlist[w.ff-2]
+				}
+			}
+			h := mk(w.n+i, num, parent, "verif-fork")
+			w.headers = append(w.headers, h)
+			parent = h.Hash()
+			w.hlist = append(w.hlist, parent)
+		}
+		chainCache[key], hashCache[key], origCache[key] = w.headers, w.hlist, w.orig
 	}
-	parent := (&types.Header{Number: new(big.Int).SetUint64(w.origin), Extra: []byte("verif-origin")}).Hash()
-	for k := 1; k <= w.n; k++ {
-		h := &types.Header{
-			ParentHash: parent,
-			Number:     new(big.Int).SetUint64(w.origin + uint64(k)),
-			GasLimit:   8000000,
-			Subsidy:    big.NewInt(0),
-			GasRewards: big.NewInt(0),
-			Time:       uint64(1000 + k),
-			Extra:      []byte(fmt.Sprintf("verif-%d", k)),
-		}
-		if w.body[k-1] == 0 {
-			h.TxHash = types.EmptyRootHash
-		} else {
-			h.TxHash = types.DeriveSha(types.Transactions(txs(w.body[k-1])))
-		}
-		h.ReceiptHash = types.EmptyRootHash
-		w.headers = append(w.headers, h)
-		parent = h.Hash()
-		w.hashes[parent] = k
-		w.hlist = append(w.hlist, parent)
+	for k, h := range w.hlist {
+		w.hashes[h] = k + 1
 	}
-	chainCache[key] = w.headers
-	hashCache[key] = w.hlist
+	w.last = w.orig
 	w.q = downloader.NewVerifQueue(w.origin, w.w, w.maxp)
 	return w
 }
@@ -135,31 +151,35 @@ func (w *world) effMaxP() int {
 	return 2048
 }
 
-func (w *world) rel(nums []uint64) []int {
-	out := make([]int, 0, len(nums))
-	for _, x := range nums {
-		out = append(out, int(int64(x)-int64(w.origin)))
+// ids maps header hashes onto the ids of the specification (0 = not a header of the fixture).
+func (w *world) ids(hs []common.Hash, sorted bool) []int {
+	out := make([]int, 0, len(hs))
+	for _, h := range hs {
+		out = append(out, w.hashes[h])
+	}
+	if sorted {
+		sort.Ints(out)
 	}
 	return out
 }
 
-// obs is the projection of the real queue in the vocabulary of the specification (numbers relative to the origin).
+// obs is the projection of the real queue in the vocabulary of the specification (header ids).
 func (w *world) obs() map[string]interface{} {
-	p := w.q.Pools(w.headers, w.hlist)
+	p := w.q.Pools()
 	pd := map[string][]int{}
-	for id, nums := range p.Pend {
-		pd[id] = w.rel(nums)
+	for id, hs := range p.Pend {
+		pd[id] = w.ids(hs, false)
 	}
 	lk := map[string][]int{}
-	for id, nums := range p.Lacks {
-		lk[id] = w.rel(nums)
+	for id, hs := range p.Lacks {
+		lk[id] = w.ids(hs, true)
 	}
-	win := p.Window
-	if win == nil {
-		win = []int{}
+	win := [][]int{}
+	for i, pc := range p.Window {
+		win = append(win, []int{pc, w.hashes[p.WindowHdr[i]]})
 	}
 	return map[string]interface{}{
-		"tp": w.rel(p.TaskPool), "tq": w.rel(p.TaskQueue), "pd": pd, "dn": w.rel(p.Done), "dnc": p.DoneCount,
+		"tp": w.ids(p.TaskPool, true), "tq": w.ids(p.TaskQueue, true), "pd": pd, "dn": w.ids(p.Done, true), "dnc": len(p.Done),
 		"win": win, "off": int(int64(p.Offset) - int64(w.origin) - 1), "lk": lk,
 	}
 }
@@ -188,14 +208,17 @@ func (w *world) bodyID(list types.Transactions) int {
 	return -7
 }
 
-// results calls Results(false) and describes what was handed out: [number, body id, txroot matches, header is the chain's]
+// results calls Results(false) and describes what was handed out: [number, body id, txroot matches, header is one of the
+// fixture's, header id, parent hash = hash of the header handed out before]
 func (w *world) results() [][]interface{} {
 	out := [][]interface{}{}
 	for _, r := range w.q.Results() {
 		num := int(r.Header.Number.Int64() - int64(w.origin))
 		rootok := types.DeriveSha(r.Transactions) == r.Header.TxHash
-		hdrok := num >= 1 && num <= w.n && w.hlist[num-1] == r.Header.Hash()
-		out = append(out, []interface{}{num, w.bodyID(r.Transactions), rootok, hdrok})
+		id := w.hashes[r.Header.Hash()]
+		link := r.Header.ParentHash == w.last
+		w.last = r.Header.Hash()
+		out = append(out, []interface{}{num, w.bodyID(r.Transactions), rootok, id > 0, id, link})
 		w.nd++
 	}
 	return out
@@ -205,7 +228,7 @@ func (w *world) lists(items []int) [][]*types.Transaction {
 	out := make([][]*types.Transaction, 0, len(items))
 	for _, it := range items {
 		switch {
-		case it >= 1 && it <= w.n:
+		case it >= 1 && it <= len(w.headers):
 			if b := w.body[it-1]; b == 0 {
 				out = append(out, []*types.Transaction{})
 			} else {
@@ -220,13 +243,22 @@ func (w *world) lists(items []int) [][]*types.Transaction {
 	return out
 }
 
-func (w *world) schedule(k int) int {
-	if w.sched+k > w.n {
-		k = w.n - w.sched
+// schedule offers the headers with the given ids as one batch expected to start at number origin+from.
+func (w *world) schedule(chunk []int, from int) (int, []int) {
+	hs := make([]*types.Header, 0, len(chunk))
+	for _, id := range chunk {
+		hs = append(hs, w.headers[id-1])
 	}
-	ins := w.q.Schedule(w.headers[w.sched:w.sched+k], w.origin+uint64(w.sched)+1)
-	w.sched += ins
-	return ins
+	ins := w.q.Schedule(hs, w.origin+uint64(from))
+	acc := []int{}
+	for _, h := range ins {
+		id := w.hashes[h.Hash()]
+		acc = append(acc, id)
+		if id >= 1 && id <= w.n && id > w.sched {
+			w.sched = id
+		}
+	}
+	return len(ins), acc
 }
 
 // apply performs one abstract action on the real queue and returns what the call returned.
@@ -239,10 +271,10 @@ func (w *world) apply(op *Op) (res map[string]interface{}) {
 	}()
 	switch op.Op {
 	case "Schedule":
-		res["ins"] = w.schedule(op.K)
+		res["ins"], res["acc"] = w.schedule(op.Chunk, op.From)
 	case "Reserve":
-		nums, progress, err := w.q.ReserveBodies(op.P, op.N)
-		res["h"], res["prog"], res["err"] = w.rel(nums), progress, downloader.VerifErrClass(err)
+		hs, progress, err := w.q.ReserveBodies(op.P, op.N)
+		res["h"], res["prog"], res["err"] = w.ids(hs, false), progress, downloader.VerifErrClass(err)
 	case "Deliver":
 		acc, err := w.q.DeliverBodies(op.P, w.lists(op.Items))
 		res["acc"], res["err"] = acc, downloader.VerifErrClass(err)
@@ -271,7 +303,11 @@ func (w *world) complete() (batches [][][]interface{}, rounds int, perr string) 
 	}()
 	batches = [][][]interface{}{}
 	if w.sched < w.n {
-		w.schedule(w.n - w.sched)
+		rest := []int{}
+		for id := w.sched + 1; id <= w.n; id++ {
+			rest = append(rest, id)
+		}
+		w.schedule(rest, w.sched+1)
 	}
 	limit := 4*w.n + 8
 	for rounds = 0; rounds < limit && w.nd < w.n; rounds++ {
@@ -279,10 +315,9 @@ func (w *world) complete() (batches [][][]interface{}, rounds int, perr string) 
 		for _, p := range w.peers {
 			w.q.ExpireBodies(p)
 		}
-		nums, _, _ := w.q.ReserveBodies(honestPeer, w.maxc)
-		if len(nums) > 0 {
-			items := w.rel(nums)
-			w.q.DeliverBodies(honestPeer, w.lists(items))
+		hs, _, _ := w.q.ReserveBodies(honestPeer, w.maxc)
+		if len(hs) > 0 {
+			w.q.DeliverBodies(honestPeer, w.lists(w.ids(hs, false)))
 		}
 		if b := w.results(); len(b) > 0 {
 			batches = append(batches, b)
@@ -294,7 +329,7 @@ func (w *world) complete() (batches [][][]interface{}, rounds int, perr string) 
 func args(op *Op) map[string]interface{} {
 	switch op.Op {
 	case "Schedule":
-		return map[string]interface{}{"k": op.K}
+		return map[string]interface{}{"v": op.V, "chunk": op.Chunk, "from": op.From}
 	case "Reserve":
 		return map[string]interface{}{"p": op.P, "n": op.N}
 	case "Deliver":
@@ -313,7 +348,7 @@ func run(env *drive.Env) error {
 			return fmt.Errorf("behaviour %d does not start with Init", env.T)
 		}
 		w := newWorld(&beh[0], env.Seed)
-		env.Emit(map[string]interface{}{"ev": "Init", "args": map[string]interface{}{"n": w.n, "body": w.body, "w": w.w, "peers": w.peers,
+		env.Emit(map[string]interface{}{"ev": "Init", "args": map[string]interface{}{"n": w.n, "fl": w.fl, "forkfrom": w.ff, "body": w.body, "w": w.w, "peers": w.peers,
 			"origin": w.origin, "maxp": w.effMaxP()}, "obs": w.obs()})
 		dead := false
 		for i := 1; i < len(beh); i++ {
